@@ -602,7 +602,17 @@ func c17RealGit(c *fw.Ctx, rounds int, hist *os.File) {
 			shape := "other"
 			if strings.Contains(werr.Error(), "has number") || strings.Contains(werr.Error(), "carry number") {
 				kind = "numbering-broken"
-				if dupAssigned {
+				// a writer that read the tip for numbering before one or more other
+				// writers committed carries a number that is too small for its parent
+				// (equal to a neighbour's when exactly one commit intervened)
+				var have, want int
+				tooSmall := false
+				if i := strings.Index(werr.Error(), "has number "); i >= 0 {
+					if n, _ := fmt.Sscanf(werr.Error()[i:], "has number %d, its parent implies %d", &have, &want); n == 2 && have < want {
+						tooSmall = true
+					}
+				}
+				if dupAssigned || tooSmall {
 					shape = "stale-number-read: number-read(B) < commit(A) < commit(B)"
 				}
 			}
